@@ -98,47 +98,57 @@ theorem refsAdd_none {r : Refs} {t : Int} {id : Nat} (h : refsAdd r t id = none)
         | none => exact List.mem_append_right _ (ih hx)
         | some r1 => rw [hx] at h; cases h
 
-theorem finishLoop_drop : ∀ (snap : List Gauge) (act fs ft : Refs), (snap.map (·.id)).Nodup →
+theorem finishLoop_drop (sa sb : List Gauge) : ∀ (snap : List Gauge) (act fs ft : Refs), (snap.map (·.id)).Nodup →
+    (∀ g ∈ snap, getGauge sb g.id = getGauge sa g.id) →
     (∀ g ∈ snap, g.id ∉ refsIds fs) → (∀ id ∈ refsIds ft, id ∈ refsIds fs) →
     OR (fun (p q : Refs × Refs) => p.1 = q.1 ∧ (∀ id ∈ refsIds q.2, id ∈ refsIds p.2) ∧ ∀ id ∈ refsIds fs, id ∈ refsIds p.2)
-      (finishLoop snap act fs) (finishLoop snap act ft)
-  | [], _, _, _, _, _, hsub => ⟨rfl, hsub, fun _ h => h⟩
-  | g :: gs, act, fs, ft, hn, hfresh, hsub => by
+      (finishLoop sa snap act fs) (finishLoop sb snap act ft)
+  | [], _, _, _, _, _, _, hsub => ⟨rfl, hsub, fun _ h => h⟩
+  | g :: gs, act, fs, ft, hn, hlook, hfresh, hsub => by
     simp only [List.map_cons, List.nodup_cons] at hn
+    have hlook' : ∀ x ∈ gs, getGauge sb x.id = getGauge sa x.id := fun x hx => hlook x (List.mem_cons_of_mem _ hx)
     simp only [finishLoop]
+    rw [hlook g List.mem_cons_self]
     split
-    · cases refsDel act g.start g.id with
+    · cases hu : getGauge sa g.id with
       | none => trivial
-      | some a1 =>
+      | some u =>
         simp only
-        have hg : g.id ∉ refsIds fs := hfresh g List.mem_cons_self
-        cases hs : refsAdd fs g.start g.id with
-        | none => exact absurd (refsAdd_none hs) hg
-        | some fs1 =>
-          cases ht : refsAdd ft g.start g.id with
-          | none => exact absurd (hsub _ (refsAdd_none ht)) hg
-          | some ft1 =>
+        have hid : u.id = g.id := getGauge_id hu
+        split
+        · exact finishLoop_drop sa sb gs act fs ft hn.2 hlook' (fun x hx => hfresh x (List.mem_cons_of_mem _ hx)) hsub
+        · cases refsDel act u.start u.id with
+          | none => trivial
+          | some a1 =>
             simp only
-            have ps := refsAdd_perm hs
-            have pt := refsAdd_perm ht
-            have := finishLoop_drop gs a1 fs1 ft1 hn.2
-              (by
-                intro x hx hm
-                rcases List.mem_cons.mp (ps.mem_iff.mp hm) with e | e
-                · exact hn.1 (List.mem_map.mpr ⟨x, hx, e⟩)
-                · exact hfresh x (List.mem_cons_of_mem _ hx) e)
-              (by
-                intro id hid
-                rcases List.mem_cons.mp (pt.mem_iff.mp hid) with e | e
-                · exact ps.mem_iff.mpr (by rw [e]; exact List.mem_cons_self)
-                · exact ps.mem_iff.mpr (List.mem_cons_of_mem _ (hsub id e)))
-            revert this
-            cases finishLoop gs a1 fs1 <;> cases finishLoop gs a1 ft1 <;> intro this
-            · trivial
-            · exact this.elim
-            · exact this.elim
-            · exact ⟨this.1, this.2.1, fun id hid => this.2.2 id (ps.mem_iff.mpr (List.mem_cons_of_mem _ hid))⟩
-    · exact finishLoop_drop gs act fs ft hn.2 (fun x hx => hfresh x (List.mem_cons_of_mem _ hx)) hsub
+            have hg : u.id ∉ refsIds fs := by rw [hid]; exact hfresh g List.mem_cons_self
+            cases hs : refsAdd fs u.start u.id with
+            | none => exact absurd (refsAdd_none hs) hg
+            | some fs1 =>
+              cases ht : refsAdd ft u.start u.id with
+              | none => exact absurd (hsub _ (refsAdd_none ht)) hg
+              | some ft1 =>
+                simp only
+                have ps := refsAdd_perm hs
+                have pt := refsAdd_perm ht
+                have := finishLoop_drop sa sb gs a1 fs1 ft1 hn.2 hlook'
+                  (by
+                    intro x hx hm
+                    rcases List.mem_cons.mp (ps.mem_iff.mp hm) with e | e
+                    · exact hn.1 (List.mem_map.mpr ⟨x, hx, e.trans hid⟩)
+                    · exact hfresh x (List.mem_cons_of_mem _ hx) e)
+                  (by
+                    intro id hid'
+                    rcases List.mem_cons.mp (pt.mem_iff.mp hid') with e | e
+                    · exact ps.mem_iff.mpr (by rw [e]; exact List.mem_cons_self)
+                    · exact ps.mem_iff.mpr (List.mem_cons_of_mem _ (hsub id e)))
+                revert this
+                cases finishLoop sa gs a1 fs1 <;> cases finishLoop sb gs a1 ft1 <;> intro this
+                · trivial
+                · exact this.elim
+                · exact this.elim
+                · exact ⟨this.1, this.2.1, fun id hid' => this.2.2 id (ps.mem_iff.mpr (List.mem_cons_of_mem _ hid'))⟩
+    · exact finishLoop_drop sa sb gs act fs ft hn.2 hlook' (fun x hx => hfresh x (List.mem_cons_of_mem _ hx)) hsub
 
 /-! ## every operation -/
 
@@ -191,7 +201,11 @@ theorem epoch_drop {D : List Nat} {s t : State} (hi : Inv s) (h : Drop D s t) (n
           have hndact : (refsIds act).Nodup := by
             have := (List.Perm.nodup_iff hperm).mpr (List.nodup_append.mp hi.refs).1
             exact (List.nodup_append.mp this).2.1
-          have hf := finishLoop_drop snap act s.finished t.finished (by rw [hids]; exact hndact)
+          have hf := finishLoop_drop store store' snap act s.finished t.finished (by rw [hids]; exact hndact)
+            (by
+              intro g hg
+              have hga : g.id ∈ refsIds act := by rw [← hids]; exact List.mem_map_of_mem hg
+              rw [hl g.id, if_neg (hlive g.id hga)])
             (by
               intro g hg hm
               have hga : g.id ∈ refsIds act := by rw [← hids]; exact List.mem_map_of_mem hg
@@ -199,7 +213,7 @@ theorem epoch_drop {D : List Nat} {s t : State} (hi : Inv s) (h : Drop D s t) (n
               exact this rfl)
             h.tfin
           revert hf
-          cases finishLoop snap act s.finished <;> cases finishLoop snap act t.finished <;> intro hf
+          cases finishLoop store snap act s.finished <;> cases finishLoop store' snap act t.finished <;> intro hf
           · trivial
           · exact hf.elim
           · exact hf.elim
